@@ -4,6 +4,7 @@
 From Coq Require Import ZArith List.
 From Verif Require Import Lib.Params Lib.Octets Model.Outcome Model.Utils Model.Poseidon Model.Mimc7
   Proofs.HashDomainProofs.
+From Verif Require Proofs.GapHash Proofs.PoseidonConforms.
 From Verif Require Gen.BigIntRoutines Proofs.BigIntEqHash Proofs.BigIntEqUtils.
 Local Open Scope Z_scope.
 
@@ -63,6 +64,29 @@ Theorem C07_guards_are_the_source :
   (forall arr key, BigIntRoutines.mimc7_Hash BigIntEqHash.mimc7_absorb arr key = Mimc7.Hash arr key).
 Proof. exact (conj BigIntEqUtils.gen_utils_CheckBigIntInField_eq BigIntEqHash.gen_mimc7_Hash_eq). Qed.
 
+(* on the regenerated tables: the Ok list has exactly nOuts elements, every table has the
+   shape the loop indexes (no out-of-range index), distinct accepted vectors never alias *)
+Theorem C07_ok_length : forall inp cap nOuts r,
+  HashWithStateEx q 8 PoseidonConforms.gen_tables inp cap nOuts = Ok r -> length r = Z.to_nat nOuts.
+Proof. exact GapHash.HashWithStateEx_ok_length. Qed.
+
+Theorem C07_tables_shape : forall t RP C S_ M P, (2 <= t <= 17)%nat ->
+  nth_error PoseidonConforms.gen_tables (t - 2) = Some (RP, C, S_, M, P) ->
+  length C = (8 * t + RP)%nat /\ length S_ = ((2 * t - 1) * RP)%nat /\
+  length M = t /\ Forall (fun r => length r = t) M /\ length P = t /\ Forall (fun r => length r = t) P.
+Proof. exact GapHash.tables_shape_ok. Qed.
+
+Theorem C07_poseidon_no_alias : forall v v' h h',
+  Poseidon.Hash q 8 PoseidonConforms.gen_tables v = Ok h ->
+  Poseidon.Hash q 8 PoseidonConforms.gen_tables v' = Ok h' -> v <> v' -> ~ GapHash.congruent_vectors v v'.
+Proof. exact GapHash.poseidon_Hash_no_alias. Qed.
+
+(* observation (outside the statement's domain of round counts): HashGeneric panics exactly for
+   nRounds <= 0 on a non-empty in-field array *)
+Theorem C07_generic_panic_iff : forall iv arr n,
+  HashGeneric iv arr n = Panic <-> n <= 0 /\ arr <> nil /\ Forall inF arr.
+Proof. exact GapHash.mimc7_HashGeneric_panic_iff. Qed.
+
 Print Assumptions C07_poseidon_accepts_iff.
 Print Assumptions C07_poseidon_never_panics.
 Print Assumptions C07_poseidon_wrappers.
@@ -71,3 +95,6 @@ Print Assumptions C07_mimc7_generic_accepts_iff.
 Print Assumptions C07_mimc7_never_panics.
 Print Assumptions C07_no_alias.
 Print Assumptions C07_guards_are_the_source.
+Print Assumptions C07_ok_length.
+Print Assumptions C07_tables_shape.
+Print Assumptions C07_generic_panic_iff.
